@@ -81,7 +81,7 @@ Proof. exact explicit_ips_exact. Qed.
 
 (* ---- the selection algorithm itself ---- *)
 From Coq Require Import Permutation Sorted.
-From Verif Require Import Proofs.AllocSortP Proofs.AllocRefP.
+From Verif Require Import Model.AllocRef Proofs.AllocSortP Proofs.AllocRefP.
 
 (* sortPools: Go's insertionSort (what sort.Slice runs for <= 12 elements) with
    sortPools' comparator - which is not a strict weak order - returns, for every
